@@ -3,3 +3,450 @@ From BVA Require Import Base.Prelude Base.Result Base.Words Base.Limbs.
 From BVA Require Import Model.Core Model.Ops Model.Arith Model.Conv Model.Auto Model.Run Spec.Spec Spec.Prop Spec.CaseOk.
 From BVA Require Import Proofs.Common Proofs.Rechunk Proofs.Lift.
 From Coq Require Import ZifyBool ZifyN ZifyNat.
+From BVA Require Import Proofs.Pairings Proofs.ConvP Proofs.XEdit Proofs.XObs Proofs.FmtParse Proofs.Forms Proofs.Div.
+
+(* The master theorem, part A: constructors and observers (operation codes 1..37).
+   For every case inside the scope `case_okb`, what the model computes (`run_case`) satisfies
+   the property relation (`prop_case`). *)
+
+(* ------------------------------------------------------------------ boolean scope -> Prop *)
+
+Lemma std_widthb_ok w : std_widthb w = true -> std_width w.
+Proof.
+  unfold std_widthb, std_width. cbn [In]. rewrite !orb_true_iff, !N.eqb_eq.
+  intros [[[[H|H]|H]|H]|H]; subst; auto 6.
+Qed.
+
+Lemma goodb_Good x : goodb x = true -> Good x.
+Proof.
+  unfold goodb. rewrite andb_true_iff. intros [Hc Hw].
+  split; [apply canonb_spec; exact Hc|apply std_widthb_ok; exact Hw].
+Qed.
+
+Lemma Good_canonb x : Good x -> canonb x = true.
+Proof. intros [Hc _]. apply canonb_spec. exact Hc. Qed.
+
+Lemma kind_okb_ok k : kind_okb k = true -> XEdit.kind_ok k.
+Proof.
+  destruct k as [w n| |]; cbn [kind_okb XEdit.kind_ok]; try (intros _; exact I).
+  rewrite andb_true_iff. intros [Hw Hn]. split; [apply std_widthb_ok; exact Hw|apply N.ltb_lt; exact Hn].
+Qed.
+
+Lemma all_lt_Forall b l : all_lt b l = true -> Forall (fun x => x < b) l.
+Proof.
+  unfold all_lt. rewrite forallb_forall, Forall_forall. intros H x Hx. apply N.ltb_lt, H, Hx.
+Qed.
+
+Lemma all_lt2_Forall l : all_lt 2 l = true -> Forall (fun x => x <= 1) l.
+Proof.
+  intros H. apply all_lt_Forall in H. rewrite Forall_forall in *. intros x Hx. specialize (H x Hx). lia.
+Qed.
+
+Lemma case_ok_parts c : case_okb c = true ->
+  forallb goodb (c_vals c) = true /\ XEdit.kind_ok (c_kind c) /\ args_okb c = true.
+Proof.
+  unfold case_okb. rewrite !andb_true_iff. intros [[Hv Hk] Ha].
+  split; [exact Hv|]. split; [apply kind_okb_ok; exact Hk|exact Ha].
+Qed.
+
+(* the operands *)
+Lemma ok1 c : forallb goodb (c_vals c) = true -> nvals c 1 = true ->
+  exists x, Good x /\ Run.val c 0 = Ok x /\ sval c 0 = Some (kind_of x, abs x).
+Proof.
+  unfold nvals, Run.val, sval. destruct (c_vals c) as [|x [|y r]]; cbn [length Nat.eqb]; try discriminate.
+  cbn [forallb nth_error]. rewrite andb_true_iff. intros [Hx _] _.
+  exists x. split; [apply goodb_Good; exact Hx|]. split; reflexivity.
+Qed.
+
+Lemma ok1e c : forallb goodb (c_vals c) = true -> nvals c 1 = true ->
+  exists x, c_vals c = [x] /\ Good x /\ Run.val c 0 = Ok x /\ sval c 0 = Some (kind_of x, abs x).
+Proof.
+  unfold nvals, Run.val, sval. destruct (c_vals c) as [|x [|y r]]; cbn [length Nat.eqb]; try discriminate.
+  cbn [forallb nth_error]. rewrite andb_true_iff. intros [Hx _] _.
+  exists x. split; [reflexivity|]. split; [apply goodb_Good; exact Hx|]. split; reflexivity.
+Qed.
+
+Lemma ok2 c : forallb goodb (c_vals c) = true -> nvals c 2 = true ->
+  exists a b, c_vals c = [a; b] /\ Good a /\ Good b /\ Run.val c 0 = Ok a /\ Run.val c 1 = Ok b /\
+              sval c 0 = Some (kind_of a, abs a) /\ sval c 1 = Some (kind_of b, abs b).
+Proof.
+  unfold nvals, Run.val, sval. destruct (c_vals c) as [|x [|y [|z r]]]; cbn [length Nat.eqb]; try discriminate.
+  cbn [forallb nth_error]. rewrite !andb_true_iff. intros (Hx & Hy & _) _.
+  exists x, y. split; [reflexivity|]. split; [apply goodb_Good; exact Hx|].
+  split; [apply goodb_Good; exact Hy|]. repeat split; reflexivity.
+Qed.
+
+(* ------------------------------------------------------------------ comparing with the specification *)
+
+Lemma list_eqb_refl l : list_eqb l l = true.
+Proof. induction l as [|x l IH]; cbn [list_eqb]; [reflexivity|]. rewrite N.eqb_refl, IH. reflexivity. Qed.
+
+Lemma bv_eqb_refl v : bv_eqb v v = true.
+Proof. unfold bv_eqb. rewrite !N.eqb_refl. reflexivity. Qed.
+
+Lemma item_ok_SV k v lo r : Good r -> kind_matches k r = true -> abs r = v -> lo <= x_capacity r ->
+  item_ok (SV k v lo None) (IV r) = true.
+Proof.
+  intros Hg Hk <- Hlo. cbn [item_ok]. rewrite Hk, (Good_canonb r Hg), bv_eqb_refl.
+  cbn [andb]. rewrite andb_true_r. apply N.leb_le. exact Hlo.
+Qed.
+
+Lemma item_ok_sv k v r : Good r -> kind_matches k r = true -> abs r = v -> item_ok (sv k v) (IV r) = true.
+Proof. intros Hg Hk Ha. unfold sv. apply item_ok_SV; try assumption. lia. Qed.
+
+Lemma item_ok_sv_of a v r : Good r -> kind_of r = kind_of a -> abs r = v -> item_ok (sv (kind_of a) v) (IV r) = true.
+Proof. intros Hg Hk Ha. apply item_ok_sv; try assumption. rewrite <- Hk. apply kind_matches_of. Qed.
+
+(* a constructor-shaped result *)
+Lemma res_ok_ctor k v (m : outcome bvx) :
+  (exists r, m = Ok r /\ Good r /\ kind_matches k r = true /\ abs r = v) ->
+  res_ok (SOk [sv k v]) (ret_v m) = true.
+Proof.
+  intros (r & -> & Hg & Hk & Ha). unfold ret_v. cbn [bind res_ok items_ok].
+  rewrite item_ok_sv by assumption. reflexivity.
+Qed.
+
+Lemma res_ok_SN n : res_ok (SOk [SN n]) (Ok [IN n]) = true.
+Proof. cbn [res_ok items_ok item_ok]. rewrite N.eqb_refl. reflexivity. Qed.
+
+Lemma res_ok_SL l : res_ok (SOk [SL l]) (Ok [IL l]) = true.
+Proof. cbn [res_ok items_ok item_ok]. rewrite list_eqb_refl. reflexivity. Qed.
+
+Lemma prop_case_ne c r : c_op c <> 37 -> prop_case c r = res_ok (spec_case c) r.
+Proof. intros H. unfold prop_case. apply N.eqb_neq in H. rewrite H. reflexivity. Qed.
+
+(* common opening: split the scope hypothesis, expose the branch of the three dispatchers *)
+Ltac open_case c Hop Hok Hv Hk Ha :=
+  intros Hop Hok; apply case_ok_parts in Hok; destruct Hok as (Hv & Hk & Ha);
+  rewrite (prop_case_ne c) by (rewrite Hop; discriminate);
+  unfold args_okb in Ha; rewrite Hop in Ha; cbv beta iota in Ha;
+  unfold run_case, spec_case; rewrite Hop; cbv beta iota zeta.
+
+(* ------------------------------------------------------------------ constructors *)
+
+Lemma master_op_1 c : c_op c = 1 -> case_okb c = true -> prop_case c (run_case c) = true.
+Proof.
+  open_case c Hop Hok Hv Hk Ha.
+  destruct (k_zeros_spec (c_kind c) (arg c 0) Hk) as [HP HO].
+  destruct (fits (c_kind c) (arg c 0)).
+  - apply res_ok_ctor. apply HO. reflexivity.
+  - rewrite HP by reflexivity. reflexivity.
+Qed.
+
+Lemma master_op_2 c : c_op c = 2 -> case_okb c = true -> prop_case c (run_case c) = true.
+Proof.
+  open_case c Hop Hok Hv Hk Ha.
+  destruct (k_ones_spec (c_kind c) (arg c 0) Hk) as [HP HO].
+  destruct (fits (c_kind c) (arg c 0)).
+  - apply res_ok_ctor. apply HO. reflexivity.
+  - rewrite HP by reflexivity. reflexivity.
+Qed.
+
+Lemma master_op_3 c : c_op c = 3 -> case_okb c = true -> prop_case c (run_case c) = true.
+Proof.
+  open_case c Hop Hok Hv Hk Ha.
+  destruct (k_with_capacity_spec (c_kind c) (arg c 0) Hk) as (r & -> & Hg & Hm & Habs & Hcap).
+  unfold ret_v. cbn [bind res_ok items_ok]. rewrite item_ok_SV; try assumption; [reflexivity|].
+  destruct (kind_fixed (c_kind c)); [lia|]. apply Hcap. reflexivity.
+Qed.
+
+Lemma master_op_13 c : c_op c = 13 -> case_okb c = true -> prop_case c (run_case c) = true.
+Proof.
+  open_case c Hop Hok Hv Hk Ha.
+  destruct (k_zeros_spec (c_kind c) (arg c 1) Hk) as [HPz HOz].
+  destruct (k_ones_spec (c_kind c) (arg c 1) Hk) as [HPo HOo].
+  unfold s_fill.
+  destruct (fits (c_kind c) (arg c 1)); destruct (arg c 0 =? 0).
+  - apply res_ok_ctor. apply HOz. reflexivity.
+  - apply res_ok_ctor. apply HOo. reflexivity.
+  - rewrite HPz by reflexivity. reflexivity.
+  - rewrite HPo by reflexivity. reflexivity.
+Qed.
+
+(* from_binary / from_hex: the parsing theorems are stated against `s_parse` itself *)
+Lemma res_ok_parse k digit sh s (m : outcome bvx) :
+  match s_parse k digit sh s with
+  | SOk [SV k' v _ _] => exists r, m = Ok r /\ Good r /\ kind_matches k r = true /\ abs r = v
+  | SErr e => m = Err e
+  | _ => True
+  end ->
+  res_ok (s_parse k digit sh s) (ret_v m) = true.
+Proof.
+  unfold s_parse. destruct (all_valid digit s); destruct (fits k (lenw s * sh)); unfold sv; cbv beta iota.
+  - intros H. apply (res_ok_ctor k). exact H.
+  - intros ->. reflexivity.
+  - intros ->. cbn [ret_v bind res_ok err_eqb]. apply N.eqb_refl.
+  - intros _. reflexivity.
+Qed.
+
+Lemma master_op_4 c : c_op c = 4 -> case_okb c = true -> prop_case c (run_case c) = true.
+Proof.
+  open_case c Hop Hok Hv Hk Ha. apply res_ok_parse. apply k_from_binary_spec. exact Hk.
+Qed.
+
+Lemma master_op_5 c : c_op c = 5 -> case_okb c = true -> prop_case c (run_case c) = true.
+Proof.
+  open_case c Hop Hok Hv Hk Ha. apply res_ok_parse. apply k_from_hex_spec. exact Hk.
+Qed.
+
+(* ------------------------------------------------------------------ bytes *)
+
+Lemma master_op_6 c : c_op c = 6 -> case_okb c = true -> prop_case c (run_case c) = true.
+Proof.
+  open_case c Hop Hok Hv Hk Ha. apply andb_true_iff in Ha. destruct Ha as [_ Hb]. apply all_lt_Forall in Hb.
+  destruct (k_from_bytes_spec (c_kind c) (lst c 0) (endian_of (arg c 0)) Hk Hb) as [HE HO].
+  destruct (fits (c_kind c) (8 * lenw (lst c 0))).
+  - apply res_ok_ctor. apply HO. reflexivity.
+  - rewrite HE by reflexivity. reflexivity.
+Qed.
+
+Lemma lenw_skipn (l : list N) n : lenw (skipn (N.to_nat n) l) = lenw l - n.
+Proof. unfold lenw. rewrite skipn_length. lia. Qed.
+
+Lemma master_op_7 c : c_op c = 7 -> case_okb c = true -> prop_case c (run_case c) = true.
+Proof.
+  open_case c Hop Hok Hv Hk Ha. apply andb_true_iff in Ha. destruct Ha as [_ Hb]. apply all_lt_Forall in Hb.
+  destruct (k_read_spec (c_kind c) (lst c 0) (arg c 0) (endian_of (arg c 1)) Hk Hb) as [HE HO].
+  destruct (fits (c_kind c) (arg c 0)); cbn [negb orb].
+  - destruct (N.ltb_spec (lenw (lst c 0)) ((arg c 0 + 7) / 8)) as [Hlt|Hge].
+    + destruct HE as [e ->]; [right; exact Hlt|]. reflexivity.
+    + destruct (HO eq_refl Hge) as (r & -> & Hg & Hm & Habs). cbn [bind res_ok items_ok item_ok].
+      rewrite lenw_skipn, N.eqb_refl. rewrite trunc_mod.
+      rewrite item_ok_sv by assumption. reflexivity.
+  - destruct HE as [e ->]; [left; reflexivity|]. reflexivity.
+Qed.
+
+(* ------------------------------------------------------------------ integers, slices, iterators *)
+
+Lemma master_op_8 c : c_op c = 8 -> case_okb c = true -> prop_case c (run_case c) = true.
+Proof.
+  open_case c Hop Hok Hv Hk Ha. apply andb_true_iff in Ha. destruct Ha as [Ha Hx].
+  apply andb_true_iff in Ha. destruct Ha as [_ Ht]. apply std_widthb_ok in Ht.
+  apply N.ltb_lt in Hx. rewrite pow2_eq in Hx.
+  destruct (k_from_uint_spec (c_kind c) (arg c 0) (arg c 1) Hk Ht Hx) as [HE HO].
+  destruct (kind_fixed (c_kind c)).
+  - destruct (N.leb_spec (N.size (arg c 1)) (kind_cap (c_kind c))) as [Hle|Hgt].
+    + apply res_ok_ctor. apply HO. right. exact Hle.
+    + rewrite HE by (reflexivity || assumption). reflexivity.
+  - apply res_ok_ctor. apply HO. left. reflexivity.
+Qed.
+
+Lemma raw_val_of_digits j s : Forall (fun x => x < 2 ^ j) s ->
+  raw j s = val_of_digits (pow2 j) (rev (map (trunc j) s)).
+Proof.
+  induction 1 as [|x r Hx Hr IH]; [reflexivity|].
+  cbn [raw map rev]. rewrite vod_snoc, <- IH, trunc_small by exact Hx.
+  rewrite N.shiftl_mul_pow2, pow2_eq. lia.
+Qed.
+
+Lemma master_op_9 c : c_op c = 9 -> case_okb c = true -> prop_case c (run_case c) = true.
+Proof.
+  open_case c Hop Hok Hv Hk Ha. apply andb_true_iff in Ha. destruct Ha as [Ha Hl].
+  apply andb_true_iff in Ha. destruct Ha as [_ Ht]. apply std_widthb_ok in Ht.
+  apply all_lt_Forall in Hl. rewrite pow2_eq in Hl.
+  destruct (k_from_slice_spec (c_kind c) (arg c 0) (lst c 0) Hk Ht Hl) as [HE HO].
+  destruct (fits (c_kind c) (lenw (lst c 0) * arg c 0)).
+  - apply res_ok_ctor. rewrite <- raw_val_of_digits by exact Hl. apply HO. reflexivity.
+  - rewrite HE by reflexivity. reflexivity.
+Qed.
+
+Lemma master_op_10 c : c_op c = 10 -> case_okb c = true -> prop_case c (run_case c) = true.
+Proof.
+  open_case c Hop Hok Hv Hk Ha. apply andb_true_iff in Ha. destruct Ha as [_ Hb]. apply all_lt2_Forall in Hb.
+  destruct (k_from_iter_spec (c_prof c) (c_kind c) (arg c 0) (lst c 0) Hk Hb) as [HP HO].
+  destruct (fits (c_kind c) (lenw (lst c 0))).
+  - apply res_ok_ctor. apply HO. reflexivity.
+  - rewrite HP by reflexivity. reflexivity.
+Qed.
+
+(* ------------------------------------------------------------------ conversions *)
+
+Lemma master_op_11 c : c_op c = 11 -> case_okb c = true -> prop_case c (run_case c) = true.
+Proof.
+  open_case c Hop Hok Hv Hk Ha. destruct (ok1 c Hv Ha) as (x & Hg & -> & ->). cbn [bind]. cbv beta iota.
+  destruct (convert_spec (c_kind c) x Hk Hg) as [HE HO]. rewrite blen_abs.
+  destruct (fits (c_kind c) (xlen x)).
+  - apply res_ok_ctor. apply HO. reflexivity.
+  - rewrite HE by reflexivity. reflexivity.
+Qed.
+
+Lemma master_op_12 c : c_op c = 12 -> case_okb c = true -> prop_case c (run_case c) = true.
+Proof.
+  open_case c Hop Hok Hv Hk Ha. destruct (ok1 c Hv Ha) as (x & Hg & -> & ->). cbn [bind]. cbv beta iota.
+  cbn [res_ok items_ok]. rewrite item_ok_sv_of by (assumption || reflexivity). reflexivity.
+Qed.
+
+(* ------------------------------------------------------------------ observers *)
+
+(* opening for an operation on one vector operand (args_okb = nvals c 1 && rest) *)
+Ltac one_operand c Hv Hn x Hg :=
+  destruct (ok1 c Hv Hn) as (x & Hg & -> & ->); cbn [bind]; cbv beta iota; rewrite ?blen_abs.
+
+Lemma master_op_20 c : c_op c = 20 -> case_okb c = true -> prop_case c (run_case c) = true.
+Proof.
+  open_case c Hop Hok Hv Hk Ha. one_operand c Hv Ha x Hg.
+  cbn [res_ok items_ok item_ok]. rewrite andb_true_r. apply N.leb_le. apply x_capacity_ge_len. exact Hg.
+Qed.
+
+Lemma master_op_21 c : c_op c = 21 -> case_okb c = true -> prop_case c (run_case c) = true.
+Proof. open_case c Hop Hok Hv Hk Ha. one_operand c Hv Ha x Hg. apply res_ok_SN. Qed.
+
+Lemma master_op_22 c : c_op c = 22 -> case_okb c = true -> prop_case c (run_case c) = true.
+Proof.
+  open_case c Hop Hok Hv Hk Ha. one_operand c Hv Ha x Hg.
+  rewrite x_to_vec_spec by exact Hg. apply res_ok_SL.
+Qed.
+
+Lemma master_op_23 c : c_op c = 23 -> case_okb c = true -> prop_case c (run_case c) = true.
+Proof.
+  open_case c Hop Hok Hv Hk Ha. one_operand c Hv Ha x Hg.
+  rewrite x_to_vec_spec by exact Hg. apply res_ok_SL.
+Qed.
+
+Lemma sbit_abs x i : Good x -> sbit (abs x) i = N.b2n (N.testbit (Lift.val x) i).
+Proof. intros Hg. unfold sbit. rewrite (abs_Good x Hg). reflexivity. Qed.
+
+Lemma master_op_24 c : c_op c = 24 -> case_okb c = true -> prop_case c (run_case c) = true.
+Proof.
+  open_case c Hop Hok Hv Hk Ha. one_operand c Hv Ha x Hg.
+  destruct (N.ltb_spec (arg c 0) (xlen x)) as [Hlt|Hge].
+  - rewrite x_get_spec by assumption. rewrite sbit_abs by exact Hg. apply res_ok_SN.
+  - destruct (c_prof c); cbn [dbg_or_free]; [|reflexivity].
+    rewrite x_get_debug_oob by exact Hge. reflexivity.
+Qed.
+
+Lemma master_op_25 c : c_op c = 25 -> case_okb c = true -> prop_case c (run_case c) = true.
+Proof.
+  open_case c Hop Hok Hv Hk Ha. one_operand c Hv Ha x Hg.
+  rewrite x_first_spec by exact Hg. apply res_ok_SN.
+Qed.
+
+Lemma master_op_26 c : c_op c = 26 -> case_okb c = true -> prop_case c (run_case c) = true.
+Proof.
+  open_case c Hop Hok Hv Hk Ha. one_operand c Hv Ha x Hg.
+  rewrite x_last_spec by exact Hg. apply res_ok_SN.
+Qed.
+
+Lemma master_op_27 c : c_op c = 27 -> case_okb c = true -> prop_case c (run_case c) = true.
+Proof.
+  open_case c Hop Hok Hv Hk Ha. one_operand c Hv Ha x Hg.
+  rewrite x_count_spec by exact Hg. apply res_ok_SN.
+Qed.
+
+Lemma master_op_28 c : c_op c = 28 -> case_okb c = true -> prop_case c (run_case c) = true.
+Proof.
+  open_case c Hop Hok Hv Hk Ha. one_operand c Hv Ha x Hg.
+  rewrite x_sigbits_spec' by exact Hg. apply res_ok_SN.
+Qed.
+
+Lemma master_op_29 c : c_op c = 29 -> case_okb c = true -> prop_case c (run_case c) = true.
+Proof.
+  open_case c Hop Hok Hv Hk Ha. one_operand c Hv Ha x Hg.
+  rewrite x_is_zero_spec by exact Hg. apply res_ok_SN.
+Qed.
+
+Lemma master_op_30 c : c_op c = 30 -> case_okb c = true -> prop_case c (run_case c) = true.
+Proof.
+  open_case c Hop Hok Hv Hk Ha. apply andb_true_iff in Ha. destruct Ha as [Ha _]. one_operand c Hv Ha x Hg.
+  rewrite x_iter_spec by exact Hg. apply res_ok_SL.
+Qed.
+
+Lemma master_op_31 c : c_op c = 31 -> case_okb c = true -> prop_case c (run_case c) = true.
+Proof.
+  open_case c Hop Hok Hv Hk Ha. apply andb_true_iff in Ha. destruct Ha as [Ha _].
+  apply andb_true_iff in Ha. destruct Ha as [Ha H1].
+  destruct (ok1e c Hv Ha) as (x & Ec & Hg & -> & ->); cbn [bind]; cbv beta iota; rewrite ?blen_abs.
+  apply orb_true_iff in H1. destruct H1 as [H1|H1].
+  - apply N.leb_le in H1.
+    rewrite x_fmt_digits_spec by assumption. cbn [bind].
+    destruct (s_fmt (arg c 0) (abs x)) as [pre digits]. apply res_ok_SL.
+  - (* decimal: which = 0 unless the first disjunct holds; split on it *)
+    destruct (N.leb_spec 1 (arg c 0)) as [H1'|H0].
+    + rewrite x_fmt_digits_spec by assumption. cbn [bind].
+      destruct (s_fmt (arg c 0) (abs x)) as [pre digits]. apply res_ok_SL.
+    + assert (arg c 0 = 0) as E0 by lia. rewrite E0.
+      unfold disp_okb in H1. apply andb_true_iff in H1. destruct H1 as [HA Hw].
+      unfold len0 in HA. rewrite Ec in HA, Hw. apply N.ltb_lt in HA. unfold A1 in HA. rewrite pow2_eq in HA.
+      rewrite Div.x_fmt_digits_display_fixed; try assumption.
+      * cbn [bind]. destruct (s_fmt 0 (abs x)) as [pre digits]. apply res_ok_SL.
+      * destruct x as [w v|v|fx v]; cbn [kind_of XEdit.kind_ok]; try exact I.
+        destruct Hg as [_ Hsw]. split; [exact Hsw|apply N.ltb_lt; exact Hw].
+Qed.
+
+Lemma master_op_32 c : c_op c = 32 -> case_okb c = true -> prop_case c (run_case c) = true.
+Proof.
+  open_case c Hop Hok Hv Hk Ha. one_operand c Hv Ha x Hg. reflexivity.
+Qed.
+
+Lemma master_op_33 c : c_op c = 33 -> case_okb c = true -> prop_case c (run_case c) = true.
+Proof.
+  open_case c Hop Hok Hv Hk Ha. apply andb_true_iff in Ha. destruct Ha as [Ha Ht]. apply std_widthb_ok in Ht.
+  one_operand c Hv Ha x Hg.
+  rewrite x_to_uint_spec by assumption. unfold s_sigbits. rewrite (abs_Good x Hg). cbn [bval].
+  destruct (N.size (Lift.val x) <=? arg c 0); [apply res_ok_SN|reflexivity].
+Qed.
+
+Ltac two_operands c Hv Hn a b Ec Hga Hgb :=
+  destruct (ok2 c Hv Hn) as (a & b & Ec & Hga & Hgb & -> & -> & -> & ->); cbn [bind]; cbv beta iota.
+
+Lemma master_op_34 c : c_op c = 34 -> case_okb c = true -> prop_case c (run_case c) = true.
+Proof.
+  open_case c Hop Hok Hv Hk Ha. two_operands c Hv Ha a b Ec Hga Hgb.
+  rewrite x_eq_spec by assumption. apply res_ok_SN.
+Qed.
+
+Lemma master_op_35 c : c_op c = 35 -> case_okb c = true -> prop_case c (run_case c) = true.
+Proof.
+  open_case c Hop Hok Hv Hk Ha. two_operands c Hv Ha a b Ec Hga Hgb.
+  rewrite x_cmp_spec by assumption. apply res_ok_SN.
+Qed.
+
+Lemma master_op_36 c : c_op c = 36 -> case_okb c = true -> prop_case c (run_case c) = true.
+Proof. open_case c Hop Hok Hv Hk Ha. one_operand c Hv Ha x Hg. apply res_ok_SN. Qed.
+
+(* ------------------------------------------------------------------ C10: Hash and Eq agree *)
+
+Lemma same_typeb_ok a b : same_typeb a b = true -> XObs.same_type a b.
+Proof.
+  destruct a, b; cbn [same_typeb XObs.same_type]; try discriminate; try (intros _; exact I).
+  apply N.eqb_eq.
+Qed.
+
+Lemma master_op_37 c : c_op c = 37 -> case_okb c = true -> prop_case c (run_case c) = true.
+Proof.
+  intros Hop Hok. apply case_ok_parts in Hok. destruct Hok as (Hv & Hk & Ha).
+  unfold args_okb in Ha. rewrite Hop in Ha. cbv beta iota in Ha.
+  apply andb_true_iff in Ha. destruct Ha as [Hn Hst].
+  unfold prop_case, run_case. rewrite Hop. cbv beta iota zeta. change (37 =? 37) with true. cbv iota.
+  unfold prop_hash_pair.
+  destruct (ok2 c Hv Hn) as (a & b & Ec & Hga & Hgb & -> & -> & -> & ->). cbn [bind]. cbv beta iota.
+  rewrite Ec in Hst. apply same_typeb_ok in Hst.
+  destruct (x_hash_ok (c_prof c) a Hga) as [ha Eha]. destruct (x_hash_ok (c_prof c) b Hgb) as [hb Ehb].
+  rewrite Eha, Ehb. cbn [bind]. cbv beta iota.
+  rewrite (x_eq_spec a b Hga Hgb), N.eqb_refl. cbn [andb].
+  destruct (N.eqb_spec (bval (abs a)) (bval (abs b))) as [E|E]; [|reflexivity].
+  rewrite (abs_Good a Hga), (abs_Good b Hgb) in E. cbn [bval] in E.
+  rewrite (x_hash_eq (c_prof c) a b Hga Hgb Hst E), Ehb in Eha. injection Eha as <-.
+  cbn [negb orb]. apply list_eqb_refl.
+Qed.
+
+(* ------------------------------------------------------------------ assembly *)
+
+Definition ops_A : list N :=
+  [1;2;3;4;5;6;7;8;9;10;11;12;13;20;21;22;23;24;25;26;27;28;29;30;31;32;33;34;35;36;37].
+
+Theorem master_A c : In (c_op c) ops_A -> case_okb c = true -> prop_case c (run_case c) = true.
+Proof.
+  unfold ops_A. cbn [In]. intros H.
+  repeat (destruct H as [H|H];
+          [symmetry in H; revert H;
+           first [ apply master_op_1 | apply master_op_2 | apply master_op_3 | apply master_op_4
+                 | apply master_op_5 | apply master_op_6 | apply master_op_7 | apply master_op_8
+                 | apply master_op_9 | apply master_op_10 | apply master_op_11 | apply master_op_12
+                 | apply master_op_13 | apply master_op_20 | apply master_op_21 | apply master_op_22
+                 | apply master_op_23 | apply master_op_24 | apply master_op_25 | apply master_op_26
+                 | apply master_op_27 | apply master_op_28 | apply master_op_29 | apply master_op_30
+                 | apply master_op_31 | apply master_op_32 | apply master_op_33 | apply master_op_34
+                 | apply master_op_35 | apply master_op_36 | apply master_op_37 ]|]).
+  contradiction.
+Qed.
